@@ -18,6 +18,12 @@ func init() {
 }
 
 func c04(c *q.Ctx) {
+	// the survivor of a cut branch is the first block on the way down whose height is NOT ABOVE the target's: the walk
+	// continues while the height is strictly greater (with `>=` it goes one block too far and records the target's
+	// parent as the branch tip: the real leaf is in no record and later truncations cannot see it)
+	if tr := c.Fn("bcs/ledger/xledger/ledger::(*Ledger).Truncate"); tr != nil {
+		c.CondCount(tr, "(ledger.(*Ledger).fetchBlock(p0,p1)#0.Height < phi{*}.Height)", 1, "the walk down a cut branch stops at the first block at or below the target's height")
+	}
 	ledgerMetaStaging(c)
 	// who may delete a height-index row: only the removal of blocks (Truncate). Saving an off-trunk header must not
 	// touch the row of its height - the row belongs to the TRUNK block of that height, which a side-branch block of
